@@ -216,12 +216,32 @@ def canon(d):
     return (json.dumps(ev, sort_keys=True, default=str), tuple(sorted(map(repr, other))))
 
 
+def whole_event_subset(state, pre_state, post_state, backend):
+    """for operations that remove several events (a GC pass, an API delete): every durable state
+    must be the pre-state minus some WHOLE events (record together with all its tag rows / index
+    keys); each removal is atomic, the pass as a whole need not be"""
+    ev, other = state
+    pev, pother = pre_state
+    qev, _ = post_state
+    if not (set(qev) <= set(ev) <= set(pev)):
+        return False
+    if any(ev[i] != pev[i] for i in ev):
+        return False
+    gone = set(pev) - set(ev)
+    if backend == "sql":
+        want = {r for r in pother if r[0] not in gone}
+    else:
+        gone_b = {bytes.fromhex(g) for g in gone}
+        want = {k for k in pother if not (len(k) >= 32 and k[-32:] in gone_b)}
+    return set(other) == want
+
+
 def run(case, sim):
     backend = case["backend"]
     ops = case["ops"]
     viol = []
     probes = {"fault_points": 0, "kill_points": 0, "multi_effect_points": 0, "state_pre": 0,
-              "state_post": 0, "commit_boundaries": 0, "backend_" + backend: 1}
+              "state_post": 0, "state_partial_pass": 0, "commit_boundaries": 0, "backend_" + backend: 1}
 
     ref = HistRun(sim, backend, ops, images=True).go()
     if ref.hang is not None:
@@ -234,6 +254,18 @@ def run(case, sim):
         if i == 0:
             return run.base
         return canon(run.obs[i - 1]["post"])
+
+    raw_base = ref.states[0][1] if (backend == "lmdb" and ref.states) else ({}, set())
+
+    def atomic_ok(i, state):
+        """state (raw full dump) is a legal durable state while operation i is being applied"""
+        c = canon(state)
+        if c == pre_of(i) or c == post[i]:
+            return True
+        if ops[i][0] in ("gc", "del"):
+            raw_pre = ref.obs[i - 1]["post"] if i > 0 else raw_base
+            return whole_event_subset(state, raw_pre, ref.obs[i]["post"], backend)
+        return False
 
     # base state: dump right after open -- recompute cheaply from the first commit record
     ref.base = canon(ref.states[0][1]) if (backend == "lmdb" and ref.states) else empty
@@ -250,8 +282,7 @@ def run(case, sim):
     # (b) kill + reopen at every engine call (SQL images) and every commit boundary (both)
     for (i, k), img in sorted(ref.img.items()):
         probes["kill_points"] += 1
-        c = canon(img)
-        if c != pre_of(i) and c != post[i]:
+        if not atomic_ok(i, img):
             viol.append({"cls": "kill-intermediate", "sig": "kill-intermediate|%s|%s" % (backend, ops[i][0]),
                          "detail": {"fault": [i, k, "kill"], "op": ops[i][0],
                                     "calls": ref.call_names.get(i)}})
@@ -261,8 +292,7 @@ def run(case, sim):
         for t0, t1, i in stamps:
             if t0 < seq <= t1:
                 probes["commit_boundaries"] += 1
-                c = canon(d)
-                if c != pre_of(i) and c != post[i]:
+                if not atomic_ok(i, d):
                     viol.append({"cls": "commit-intermediate",
                                  "sig": "commit-intermediate|%s|%s" % (backend, ops[i][0]),
                                  "detail": {"fault": [i, -1, "kill"], "op": ops[i][0]}})
@@ -316,6 +346,14 @@ def run(case, sim):
                 without[i] = wo
             exp = without[i]
             shift = 1
+        elif atomic_ok(i, r.obs[i]["post"]):
+            # a multi-event pass (GC / API delete) stopped half way: whole events only; what the
+            # later operations then do depends on which ones went, so only liveness is judged
+            probes["state_partial_pass"] += 1
+            if r.hang is not None:
+                viol.append({"cls": "later-op-stuck", "sig": "later-op-stuck|%s|%s" % (backend, ops[i][0]),
+                             "detail": {"fault": fault, "stuck_op": r.hang}})
+            continue
         else:
             a_ev, a_o = r.obs[i]["post"]
             viol.append({"cls": "error-intermediate",
